@@ -2427,3 +2427,481 @@ Proof.
 Qed.
 
 End Commute6.
+
+(* ------------------------------------------------------------------------------------------ *)
+(* 3d. define_step with one product versus a static tree                                       *)
+(* ------------------------------------------------------------------------------------------ *)
+
+Section Commute7.
+
+Variable gm : str -> str -> bool.
+Variable gr : bool.
+
+(* define_step(creator, label, out_paths=[p]) / (..., vol_paths=[p]) *)
+Definition define1 (c : creator) (lbl : str) (r : role) (p : str) : req :=
+  match r with RVolatile => RqDefine c lbl [] [] [p] | _ => RqDefine c lbl [] [p] [] end.
+
+Definition add_step (st : state) (lbl : str) (c : creator) : state :=
+  mkState (claims st) (loose st) (trees st) ((lbl, c) :: steps st) (globs st).
+
+Definition dup_guard (c : creator) (lbl : str) (st : state) : res unit :=
+  match lookup lbl (steps st) with
+  | None => Ok tt
+  | Some c0 =>
+      match phrase_of c0, phrase_of c with
+      | Ok a, Ok b => let (c1, c2) := sort2_str a b in Err (MDupStep lbl c1 c2)
+      | Err m, _ => Err m
+      | _, Err m => Err m
+      end
+  end.
+
+Definition define1_sem (c : creator) (lbl : str) (r : role) (p : str) (st : state) : res state :=
+  bind (require_step st c) (fun _ =>
+  if creator_eqb c CRoot && existsb (fun sc => creator_eqb (snd sc) CRoot) (steps st) then Err MBoot else
+  if creator_eqb c (CStep lbl) then Err (MSelfDefine lbl) else
+  bind (glob_check gm (globs st) lbl [p]) (fun _ =>
+  bind (dup_guard c lbl st) (fun _ =>
+  bind (check_decl st (WPhrase (phrase_step lbl)) p r) (fun _ =>
+  declare_file false (CStep lbl) r (add_step st lbl c) p)))).
+
+Lemma define1_spec c lbl r p st :
+  product_role r = true -> step gm false gr st (define1 c lbl r p) = define1_sem c lbl r p st.
+Proof.
+  intros Hr. destruct r; try discriminate; cbn [define1 step]; unfold define_step, define1_sem;
+    destruct (require_step st c); cbn [bind]; try reflexivity;
+    destruct (creator_eqb c CRoot && existsb (fun sc => creator_eqb (snd sc) CRoot) (steps st)); try reflexivity;
+    cbn [sort_uniq fold_right insert_uniq dir_inputs find_first fold_res bind check_all app];
+    destruct (creator_eqb c (CStep lbl)); try reflexivity;
+    destruct (glob_check gm (globs st) lbl [p]); cbn [bind]; try reflexivity;
+    unfold dup_guard; destruct (lookup lbl (steps st)) as [c0|]; cbn [bind].
+  - destruct (phrase_of c0) as [x|]; [destruct (phrase_of c) as [y|]|]; try reflexivity.
+    destruct (sort2_str x y); reflexivity.
+  - destruct (check_decl st (WPhrase (phrase_step lbl)) p ROutput) as [b|]; cbn [bind]; [|reflexivity].
+    cbn [overlap_check find_first mem_str bind]. fold (add_step st lbl c).
+    destruct (declare_file false (CStep lbl) ROutput (add_step st lbl c) p); reflexivity.
+  - destruct (phrase_of c0) as [x|]; [destruct (phrase_of c) as [y|]|]; try reflexivity.
+    destruct (sort2_str x y); reflexivity.
+  - destruct (check_decl st (WPhrase (phrase_step lbl)) p RVolatile) as [b|]; cbn [bind]; [|reflexivity].
+    cbn [overlap_check find_first mem_str bind]. fold (add_step st lbl c).
+    destruct (declare_file false (CStep lbl) RVolatile (add_step st lbl c) p); reflexivity.
+Qed.
+
+Lemma require_add_step st lbl c2 c :
+  require_step st c = Ok tt -> require_step (add_step st lbl c2) c = Ok tt.
+Proof.
+  unfold require_step, step_exists. destruct c as [|l|t]; cbn [steps add_step lookup]; auto.
+  destruct (str_eqb l lbl); [reflexivity|auto].
+Qed.
+
+Lemma tree_decide_add_step c path st lbl c2 :
+  require_step st c = Ok tt -> tree_decide c path (add_step st lbl c2) = tree_decide c path st.
+Proof.
+  intros H. unfold tree_decide. rewrite (require_add_step st lbl c2 c H), H. reflexivity.
+Qed.
+
+Lemma tree_decide_require c path st : tree_decide c path st <> TErr (MNoSuchStep (creator_label c)) -> True.
+Proof. auto. Qed.
+
+Lemma tree_decide_ok_require c path st :
+  (tree_decide c path st = TNoop \/ tree_decide c path st = TNew) -> require_step st c = Ok tt.
+Proof.
+  unfold tree_decide. destruct (require_step st c) as [[]|]; [reflexivity|]. intros [H|H]; discriminate H.
+Qed.
+
+Theorem tree_define_commute st c path c2 lbl r p :
+  Inv gm gr st -> product_role r = true ->
+  filter (is_prefix (with_slash path)) (loose st) = [] ->
+  accepted (step gm false gr st (RqTree c path)) = true ->
+  accepted (step gm false gr st (define1 c2 lbl r p)) = true ->
+  both (run gm false gr st [RqTree c path; define1 c2 lbl r p])
+       (run gm false gr st [define1 c2 lbl r p; RqTree c path]).
+Proof.
+  intros HI Hr Hloose H1 H2. rewrite !run2. rewrite (define1_spec c2 lbl r p st Hr) in *.
+  rewrite (step_tree gm gr) in H1. rewrite (step_tree gm gr). rewrite (register_tree_decide c path st) in *.
+  set (d := with_slash path) in *.
+  assert (Hnr : role_eqb r RStatic = false) by (destruct r; try discriminate; reflexivity).
+  (* the definition on st *)
+  unfold define1_sem in H2 at 1.
+  destruct (require_step st c2) as [[]|] eqn:Ers; cbn [bind accepted] in H2; [|discriminate H2].
+  destruct (creator_eqb c2 CRoot && existsb (fun sc => creator_eqb (snd sc) CRoot) (steps st)) eqn:Eboot;
+    [cbn in H2; discriminate H2|].
+  destruct (creator_eqb c2 (CStep lbl)) eqn:Eself; [cbn in H2; discriminate H2|].
+  destruct (glob_check gm (globs st) lbl [p]) as [[]|] eqn:Egc; cbn [bind accepted] in H2; [|discriminate H2].
+  destruct (dup_guard c2 lbl st) as [[]|] eqn:Edup; cbn [bind accepted] in H2; [|discriminate H2].
+  destruct (check_decl st (WPhrase (phrase_step lbl)) p r) as [b|] eqn:Ecd; cbn [bind accepted] in H2; [|discriminate H2].
+  destruct (declare_file false (CStep lbl) r (add_step st lbl c2) p) as [st2|] eqn:Edf; cbn [accepted] in H2; [|discriminate H2].
+  destruct (declare_file_ok_inv _ _ _ _ _ (step_not_tree lbl) Edf) as [-> [F1 [F2 [F3 [F4 [F5 F6]]]]]].
+  assert (Hsem : define1_sem c2 lbl r p st =
+                 Ok (set_claim (add_step st lbl c2) p (mkClaim r (CStep lbl)))).
+  { unfold define1_sem. rewrite Ers. cbn [bind]. rewrite Eboot, Eself, Egc. cbn [bind]. rewrite Edup. cbn [bind].
+    rewrite Ecd. cbn [bind]. exact Edf. }
+  rewrite Hsem. cbn [bind]. rewrite (step_tree gm gr), register_tree_decide.
+  destruct (tree_decide c path st) eqn:ED; [| |cbn in H1; discriminate H1].
+  - (* the tree request is a no-op *)
+    cbn [bind]. rewrite (define1_spec c2 lbl r p st Hr), Hsem.
+    rewrite (tree_decide_noop_set_claim c path (add_step st lbl c2) p _).
+    + reflexivity.
+    + rewrite tree_decide_add_step; [exact ED|]. apply (tree_decide_ok_require c path). auto.
+  - (* a new tree *)
+    fold d. rewrite Hloose, declare_static_files_nil. cbn [bind].
+    rewrite (define1_spec c2 lbl r p _ Hr).
+    assert (Hreq : require_step st c = Ok tt) by (apply (tree_decide_ok_require c path); auto).
+    assert (ED' : tree_decide c path (add_step st lbl c2) = TNew) by (now rewrite tree_decide_add_step).
+    rewrite (tree_decide_new_set_claim c path (add_step st lbl c2) p _ ED'). fold d.
+    assert (Hoff : offending c (p, mkClaim r (CStep lbl)) = true).
+    { unfold offending. cbn. now rewrite Hnr. }
+    rewrite Hoff, andb_true_r. cbn [c_role]. rewrite Hnr. cbn [negb].
+    (* the definition on the state with the tree *)
+    unfold define1_sem.
+    change (require_step (tree_state c d st) c2) with (require_step st c2).
+    change (steps (tree_state c d st)) with (steps st).
+    change (globs (tree_state c d st)) with (globs st).
+    change (dup_guard c2 lbl (tree_state c d st)) with (dup_guard c2 lbl st).
+    rewrite Ers. cbn [bind]. rewrite Eboot, Eself, Egc. cbn [bind]. rewrite Edup. cbn [bind].
+    assert (F5' : lookup p (claims st) = None) by exact F5.
+    assert (Ecd1 : check_decl (tree_state c d st) (WPhrase (phrase_step lbl)) p r = Ok true).
+    { unfold check_decl. cbn [claims tree_state]. now rewrite (lookup_handover_none d _ p F5'). }
+    rewrite Ecd1. cbn [bind].
+    assert (Hown1 : find_owner false (add_step (tree_state c d st) lbl c2) p =
+                    if is_prefix d p then Ok (Some (d, c)) else Ok None).
+    { unfold find_owner, owners, probe in *. cbn [trees tree_state add_step filter fst] in *.
+      destruct (filter (fun tc : str * creator => is_prefix (fst tc) p) (trees st)) as [|x [|y l]];
+        [|discriminate F2|discriminate F2].
+      destruct (is_prefix d p); reflexivity. }
+    unfold declare_file. rewrite F1, Hown1.
+    destruct (is_prefix d p) eqn:Edp; cbn [bind].
+    + rewrite Hnr. reflexivity.
+    + rewrite F3, F4. cbn [claims tree_state add_step]. rewrite (lookup_handover_none d _ p F5').
+      cbn [loose tree_state add_step] in *. rewrite F6.
+      cbn [loose set_claim add_step]. unfold remove_str.
+      rewrite (filter_filter_nil (is_prefix d) (fun x => negb (str_eqb p x)) (loose st) Hloose).
+      rewrite declare_static_files_nil. cbn [both].
+      unfold set_claim, tree_state, add_step, handover. cbn [claims loose trees steps globs map fst snd].
+      now rewrite Edp.
+Qed.
+
+
+(* --- define_step with one product versus any single declaration (static / amended product) --- *)
+
+Lemma declare_file_add_step c0 r st l c q :
+  declare_file false c0 r (add_step st l c) q =
+  match declare_file false c0 r st q with
+  | Ok _ => Ok (set_claim (add_step st l c) q (mkClaim r c0))
+  | Err m => Err m
+  end.
+Proof.
+  unfold declare_file.
+  destruct (role_eqb r RVolatile && ends_with_c SLASH q); [reflexivity|].
+  change (find_owner false (add_step st l c) q) with (find_owner false st q).
+  cbn [claims loose add_step].
+  assert (Htail : forall k,
+    (if is_prefix stepup_prefix q then Err (MStepupFile q) else
+     match bad_name q with Some m => Err m | None =>
+     match lookup q (claims st) with
+     | Some _ => Err (MNodeExists (s2l "file:" ++ q))
+     | None => if role_eqb r RVolatile && mem_str q (loose st) then Err (MVolatileHasSinks q)
+               else Ok (set_claim (add_step st l c) q (mkClaim r k)) end end) =
+    match (if is_prefix stepup_prefix q then Err (MStepupFile q) else
+     match bad_name q with Some m => Err m | None =>
+     match lookup q (claims st) with
+     | Some _ => Err (MNodeExists (s2l "file:" ++ q))
+     | None => if role_eqb r RVolatile && mem_str q (loose st) then Err (MVolatileHasSinks q)
+               else Ok (set_claim st q (mkClaim r k)) end end) with
+    | Ok _ => Ok (set_claim (add_step st l c) q (mkClaim r k)) | Err m => Err m end).
+  { intros k. destruct (is_prefix stepup_prefix q); [reflexivity|]. destruct (bad_name q); [reflexivity|].
+    destruct (lookup q (claims st)); [reflexivity|].
+    destruct (role_eqb r RVolatile && mem_str q (loose st)); reflexivity. }
+  destruct c0 as [|l0|t]; cbn [bind].
+  - destruct (find_owner false st q) as [[[t tc]|]|m]; cbn [bind].
+    + destruct (role_eqb r RStatic); reflexivity.
+    + apply Htail.
+    + reflexivity.
+  - destruct (find_owner false st q) as [[[t tc]|]|m]; cbn [bind].
+    + destruct (role_eqb r RStatic); reflexivity.
+    + apply Htail.
+    + reflexivity.
+  - apply Htail.
+Qed.
+
+Definition wf2 (D : decl1) : Prop :=
+  wf1 D /\
+  (forall st l c, d1_dclf D (add_step st l c) = d1_dclf D st) /\
+  (forall st dcl, d1_dclf D st = Ok dcl -> dcl = d1_cr D \/ exists t, dcl = CTree t).
+
+Lemma D_amend_wf2 s r p : wf2 (D_amend s r p).
+Proof. split; [apply D_amend_wf|]. split; cbn; [reflexivity|]. intros st dcl H. inversion H. auto. Qed.
+
+Lemma D_static_wf2 c2 p : wf2 (D_static c2 p).
+Proof.
+  split; [apply D_static_wf|]. split; cbn.
+  - intros st l c. unfold static_declarer.
+    change (find_owner false (add_step st l c) p) with (find_owner false st p). reflexivity.
+  - intros st dcl H. destruct (static_declarer_cases _ _ _ _ H) as [[E _]|[t [E _]]]; eauto.
+Qed.
+
+Lemma dup_guard_none c lbl st : dup_guard c lbl st = Ok tt -> lookup lbl (steps st) = None.
+Proof.
+  unfold dup_guard. destruct (lookup lbl (steps st)) as [c0|]; [|reflexivity].
+  destruct (phrase_of c0) as [x|]; [destruct (phrase_of c) as [y|]|]; try discriminate.
+  destruct (sort2_str x y). discriminate.
+Qed.
+
+Theorem define_one_commute st c2 lbl r p D :
+  Inv gm gr st -> product_role r = true -> wf2 D ->
+  accepted (define1_sem c2 lbl r p st) = true -> accepted (one_sem gm D st) = true ->
+  both_equiv (bind (define1_sem c2 lbl r p st) (one_sem gm D))
+             (bind (one_sem gm D st) (define1_sem c2 lbl r p)).
+Proof.
+  intros HI Hr [[FD TD] [FA CD]] H2 HD.
+  assert (Hnr : role_eqb r RStatic = false) by (destruct r; try discriminate; reflexivity).
+  unfold define1_sem in H2 at 1.
+  destruct (require_step st c2) as [[]|] eqn:Ers; cbn [bind accepted] in H2; [|discriminate H2].
+  destruct (creator_eqb c2 CRoot && existsb (fun sc => creator_eqb (snd sc) CRoot) (steps st)) eqn:Eboot;
+    [cbn in H2; discriminate H2|].
+  destruct (creator_eqb c2 (CStep lbl)) eqn:Eself; [cbn in H2; discriminate H2|].
+  destruct (glob_check gm (globs st) lbl [p]) as [[]|] eqn:Egc; cbn [bind accepted] in H2; [|discriminate H2].
+  destruct (dup_guard c2 lbl st) as [[]|] eqn:Edup; cbn [bind accepted] in H2; [|discriminate H2].
+  destruct (check_decl st (WPhrase (phrase_step lbl)) p r) as [b|] eqn:Ecd; cbn [bind accepted] in H2; [|discriminate H2].
+  destruct (declare_file false (CStep lbl) r (add_step st lbl c2) p) as [st2|] eqn:Edf; cbn [accepted] in H2; [|discriminate H2].
+  destruct (declare_file_ok_inv _ _ _ _ _ (step_not_tree lbl) Edf) as [-> [F1 [F2 [F3 [F4 [F5 F6]]]]]].
+  cbn [claims add_step] in F5.
+  set (cl := mkClaim r (CStep lbl)) in *.
+  assert (Hsem : define1_sem c2 lbl r p st = Ok (set_claim (add_step st lbl c2) p cl)).
+  { unfold define1_sem. rewrite Ers. cbn [bind]. rewrite Eboot, Eself, Egc. cbn [bind]. rewrite Edup. cbn [bind].
+    rewrite Ecd. cbn [bind]. exact Edf. }
+  rewrite Hsem. cbn [bind].
+  destruct (one_accepted gm _ _ HD) as [QD [dd [ED [[CDh SD]|[CDn [GD [DD SD]]]]]]]; rewrite SD; cbn [bind].
+  - (* D is already held on st: another path *)
+    rewrite Hsem.
+    assert (Hne : d1_p D <> p).
+    { intros E. apply check_decl_false_held in CDh. rewrite E in CDh.
+      apply (lookup_in_nodup _ _ _ (inv_uniq _ _ _ HI)) in CDh. congruence. }
+    unfold one_sem.
+    assert (QD' : require_step (set_claim (add_step st lbl c2) p cl) (d1_cr D) = Ok tt)
+      by (apply (require_add_step st lbl c2 _ QD)).
+    rewrite QD', FD, FA, ED. cbn [bind]. rewrite check_decl_set_claim_other by assumption.
+    change (check_decl (add_step st lbl c2) (WNode dd) (d1_p D) (d1_r D)) with (check_decl st (WNode dd) (d1_p D) (d1_r D)).
+    rewrite CDh. apply state_equiv_refl.
+  - (* D is new on st *)
+    pose proof (require_nontree _ _ QD) as ND.
+    destruct (declare_file_ok_gen _ _ _ _ _ DD) as [_ [LD OD]].
+    unfold one_sem at 1.
+    assert (QD' : require_step (set_claim (add_step st lbl c2) p cl) (d1_cr D) = Ok tt)
+      by (apply (require_add_step st lbl c2 _ QD)).
+    rewrite QD', FD, FA, ED. cbn [bind].
+    unfold define1_sem.
+    change (require_step (set_claim st (d1_p D) (mkClaim (d1_r D) dd)) c2) with (require_step st c2).
+    change (steps (set_claim st (d1_p D) (mkClaim (d1_r D) dd))) with (steps st).
+    change (globs (set_claim st (d1_p D) (mkClaim (d1_r D) dd))) with (globs st).
+    change (dup_guard c2 lbl (set_claim st (d1_p D) (mkClaim (d1_r D) dd))) with (dup_guard c2 lbl st).
+    rewrite Ers. cbn [bind]. rewrite Eboot, Eself, Egc. cbn [bind]. rewrite Edup. cbn [bind].
+    destruct (str_eqb (d1_p D) p) eqn:Ep.
+    + (* the same path: a collision, the same message *)
+      apply str_eqb_eq in Ep. rewrite Ep in *.
+      unfold check_decl. cbn [claims set_claim add_step lookup]. rewrite str_eqb_refl. cbn [c_role c_by cl].
+      (* dd is neither the new step nor a tree *)
+      assert (Hdd : forall t, dd <> CTree t).
+      { intros t ->. destruct (TD st t ND ED) as [_ Own].
+        unfold find_owner, owners in *. cbn [trees add_step] in F2. rewrite Own in F2. discriminate F2. }
+      assert (Hnl : dd <> CStep lbl).
+      { intros ->. destruct (CD st _ ED) as [E|[t E]]; [|discriminate E].
+        rewrite <- E in QD. unfold require_step, step_exists in QD.
+        rewrite (dup_guard_none _ _ _ Edup) in QD. discriminate QD. }
+      assert (Hdiff : role_eqb r (d1_r D) && creator_eqb (CStep lbl) dd = false).
+      { destruct (creator_eqb (CStep lbl) dd) eqn:E; [|apply andb_false_r].
+        apply creator_eqb_eq in E. congruence. }
+      rewrite Hdiff.
+      assert (exists dD, decl_of_node (d1_r D) dd = Ok dD) as [dD HdD].
+      { destruct dd; [eexists; reflexivity|eexists; reflexivity|exfalso; eapply Hdd; eauto]. }
+      rewrite HdD. cbn [bind both_equiv].
+      unfold cl. apply (collision_message_symmetric p r (CStep lbl) (d1_r D) dd); [apply decl_of_node_step|exact HdD].
+    + (* different paths: independent *)
+      assert (Hne : d1_p D <> p) by (now apply str_eqb_false).
+      assert (Hne' : p <> d1_p D) by congruence.
+      rewrite !check_decl_set_claim_other by assumption.
+      change (check_decl (add_step st lbl c2) (WNode dd) (d1_p D) (d1_r D)) with (check_decl st (WNode dd) (d1_p D) (d1_r D)).
+      rewrite CDn, Ecd. cbn [bind].
+      change (globs (set_claim (add_step st lbl c2) p cl)) with (globs st). rewrite GD. cbn [bind].
+      rewrite declare_file_set_claim_other_gen by assumption.
+      rewrite declare_file_add_step, DD.
+      change (add_step (set_claim st (d1_p D) (mkClaim (d1_r D) dd)) lbl c2)
+        with (set_claim (add_step st lbl c2) (d1_p D) (mkClaim (d1_r D) dd)).
+      rewrite declare_file_set_claim_other_gen by assumption. rewrite Edf.
+      cbn [both_equiv]. apply set_claim_swap. congruence.
+Qed.
+
+Theorem define_product_commute st c2 lbl r p s r' p' :
+  Inv gm gr st -> product_role r = true -> product_role r' = true ->
+  accepted (step gm false gr st (define1 c2 lbl r p)) = true ->
+  accepted (step gm false gr st (amend1 s r' p')) = true ->
+  both_equiv (run gm false gr st [define1 c2 lbl r p; amend1 s r' p'])
+             (run gm false gr st [amend1 s r' p'; define1 c2 lbl r p]).
+Proof.
+  intros HI Hr Hr' H1 H2. rewrite !(run2 gm gr).
+  rewrite (bind_ext _ _ (one_sem gm (D_amend s r' p')) (fun st' => D_amend_spec gm gr s r' p' st' Hr')).
+  rewrite (bind_ext _ _ (define1_sem c2 lbl r p) (fun st' => define1_spec c2 lbl r p st' Hr)).
+  rewrite (define1_spec c2 lbl r p st Hr) in *. rewrite (D_amend_spec gm gr s r' p' st Hr') in *.
+  apply define_one_commute; auto using D_amend_wf2.
+Qed.
+
+Theorem define_static_commute st c2 lbl r p c1 p1 :
+  Inv gm gr st -> product_role r = true ->
+  accepted (step gm false gr st (define1 c2 lbl r p)) = true ->
+  accepted (step gm false gr st (RqStatic c1 [p1])) = true ->
+  both_equiv (run gm false gr st [define1 c2 lbl r p; RqStatic c1 [p1]])
+             (run gm false gr st [RqStatic c1 [p1]; define1 c2 lbl r p]).
+Proof.
+  intros HI Hr H1 H2. rewrite !(run2 gm gr).
+  rewrite (bind_ext _ _ (one_sem gm (D_static c1 p1)) (fun st' => D_static_spec gm gr c1 p1 st')).
+  rewrite (bind_ext _ _ (define1_sem c2 lbl r p) (fun st' => define1_spec c2 lbl r p st' Hr)).
+  rewrite (define1_spec c2 lbl r p st Hr) in *. rewrite (D_static_spec gm gr c1 p1 st) in *.
+  apply define_one_commute; auto using D_static_wf2.
+Qed.
+
+
+(* --- two definitions of steps with one product each --- *)
+
+Lemma define_states_swap st lA cA pA clA lB cB pB clB :
+  lA <> lB -> pA <> pB ->
+  state_equiv (set_claim (add_step (set_claim (add_step st lA cA) pA clA) lB cB) pB clB)
+              (set_claim (add_step (set_claim (add_step st lB cB) pB clB) lA cA) pA clA).
+Proof.
+  intros Hl Hp.
+  destruct (set_claim_swap st pA clA pB clB Hp) as [Hc [Ht [Hs [Hlo Hg]]]].
+  unfold state_equiv. cbn [claims loose trees steps globs set_claim add_step] in *. repeat split; auto.
+  intros l. cbn [lookup].
+  destruct (str_eqb l lB) eqn:E2, (str_eqb l lA) eqn:E1; try reflexivity.
+  apply str_eqb_eq in E1, E2. congruence.
+Qed.
+
+Definition define_facts (c : creator) (lbl : str) (r : role) (p : str) (st : state) : Prop :=
+  require_step st c = Ok tt /\
+  creator_eqb c CRoot && existsb (fun sc => creator_eqb (snd sc) CRoot) (steps st) = false /\
+  creator_eqb c (CStep lbl) = false /\
+  glob_check gm (globs st) lbl [p] = Ok tt /\
+  dup_guard c lbl st = Ok tt /\
+  check_decl st (WPhrase (phrase_step lbl)) p r = Ok true /\
+  declare_file false (CStep lbl) r (add_step st lbl c) p =
+    Ok (set_claim (add_step st lbl c) p (mkClaim r (CStep lbl))) /\
+  define1_sem c lbl r p st = Ok (set_claim (add_step st lbl c) p (mkClaim r (CStep lbl))).
+
+Lemma define_accepted c lbl r p st :
+  accepted (define1_sem c lbl r p st) = true -> define_facts c lbl r p st.
+Proof.
+  intros H2. unfold define1_sem in H2 at 1.
+  destruct (require_step st c) as [[]|] eqn:Ers; cbn [bind accepted] in H2; [|discriminate H2].
+  destruct (creator_eqb c CRoot && existsb (fun sc => creator_eqb (snd sc) CRoot) (steps st)) eqn:Eboot;
+    [cbn in H2; discriminate H2|].
+  destruct (creator_eqb c (CStep lbl)) eqn:Eself; [cbn in H2; discriminate H2|].
+  destruct (glob_check gm (globs st) lbl [p]) as [[]|] eqn:Egc; cbn [bind accepted] in H2; [|discriminate H2].
+  destruct (dup_guard c lbl st) as [[]|] eqn:Edup; cbn [bind accepted] in H2; [|discriminate H2].
+  destruct (check_decl st (WPhrase (phrase_step lbl)) p r) as [b|] eqn:Ecd; cbn [bind accepted] in H2; [|discriminate H2].
+  destruct (declare_file false (CStep lbl) r (add_step st lbl c) p) as [st2|] eqn:Edf; cbn [accepted] in H2; [|discriminate H2].
+  destruct (declare_file_ok_inv _ _ _ _ _ (step_not_tree lbl) Edf) as [-> _].
+  assert (b = true).
+  { unfold check_decl in Ecd. destruct (lookup p (claims st)); [discriminate Ecd|]. now inversion Ecd. }
+  subst b. unfold define_facts. repeat split; auto.
+  unfold define1_sem. rewrite Ers. cbn [bind]. rewrite Eboot, Eself, Egc. cbn [bind]. rewrite Edup. cbn [bind].
+  rewrite Ecd. cbn [bind]. exact Edf.
+Qed.
+
+Lemma phrase_of_nontree c : (forall t, c <> CTree t) -> exists ph, phrase_of c = Ok ph.
+Proof. destruct c; intros H; [eexists; reflexivity|eexists; reflexivity|exfalso; eapply H; eauto]. Qed.
+
+(* what the second definition does after the first *)
+Lemma define_after st cA lA rA pA cB lB rB pB :
+  define_facts cA lA rA pA st -> define_facts cB lB rB pB st ->
+  define1_sem cB lB rB pB (set_claim (add_step st lA cA) pA (mkClaim rA (CStep lA))) =
+  if creator_eqb cB CRoot && creator_eqb cA CRoot then Err MBoot
+  else if str_eqb lB lA then
+    match phrase_of cA, phrase_of cB with
+    | Ok a, Ok b => let (c1, c2) := sort2_str a b in Err (MDupStep lB c1 c2)
+    | Err m, _ => Err m
+    | _, Err m => Err m
+    end
+  else if str_eqb pB pA then
+    Err (claim_collision pB (mkClaim rA (CStep lA)) (mkDecl rB (phrase_step lB) true))
+  else Ok (set_claim (add_step (set_claim (add_step st lA cA) pA (mkClaim rA (CStep lA))) lB cB) pB
+                     (mkClaim rB (CStep lB))).
+Proof.
+  intros [QA [BA [SA [GA [DA [CA [FA _]]]]]]] [QB [BB [SB [GB [DB [CB [FB _]]]]]]].
+  unfold define1_sem.
+  assert (QB' : require_step (set_claim (add_step st lA cA) pA (mkClaim rA (CStep lA))) cB = Ok tt)
+    by (apply (require_add_step st lA cA _ QB)).
+  rewrite QB'. cbn [bind]. cbn [steps set_claim add_step existsb snd].
+  destruct (creator_eqb cB CRoot) eqn:EbR.
+  - cbn [andb] in *. rewrite BB, orb_false_r.
+    destruct (creator_eqb cA CRoot) eqn:EaR; [reflexivity|].
+    rewrite SB. cbn [globs set_claim add_step]. rewrite GB. cbn [bind].
+    unfold dup_guard. cbn [steps set_claim add_step lookup].
+    destruct (str_eqb lB lA) eqn:El;
+      [destruct (phrase_of cA) as [x|]; [destruct (phrase_of cB) as [y|]|]; try reflexivity;
+       destruct (sort2_str x y); reflexivity|].
+    fold (dup_guard cB lB st). rewrite DB. cbn [bind].
+    unfold check_decl. cbn [claims set_claim add_step lookup].
+    destruct (str_eqb pB pA) eqn:Ep.
+    + apply str_eqb_eq in Ep. subst. reflexivity.
+    + apply check_decl_true_none in CB. rewrite CB. cbn [bind].
+      change (add_step (set_claim (add_step st lA cA) pA (mkClaim rA (CStep lA))) lB cB)
+        with (set_claim (add_step (add_step st lA cA) lB cB) pA (mkClaim rA (CStep lA))).
+      rewrite declare_file_set_claim_other_gen by (now apply str_eqb_false).
+      rewrite !declare_file_add_step.
+      rewrite declare_file_add_step in FB.
+      destruct (declare_file false (CStep lB) rB st pB); [reflexivity|discriminate FB].
+  - cbn [andb]. rewrite SB. cbn [globs set_claim add_step]. rewrite GB. cbn [bind].
+    unfold dup_guard. cbn [steps set_claim add_step lookup].
+    destruct (str_eqb lB lA) eqn:El;
+      [destruct (phrase_of cA) as [x|]; [destruct (phrase_of cB) as [y|]|]; try reflexivity;
+       destruct (sort2_str x y); reflexivity|].
+    fold (dup_guard cB lB st). rewrite DB. cbn [bind].
+    unfold check_decl. cbn [claims set_claim add_step lookup].
+    destruct (str_eqb pB pA) eqn:Ep.
+    + apply str_eqb_eq in Ep. subst. reflexivity.
+    + apply check_decl_true_none in CB. rewrite CB. cbn [bind].
+      change (add_step (set_claim (add_step st lA cA) pA (mkClaim rA (CStep lA))) lB cB)
+        with (set_claim (add_step (add_step st lA cA) lB cB) pA (mkClaim rA (CStep lA))).
+      rewrite declare_file_set_claim_other_gen by (now apply str_eqb_false).
+      rewrite !declare_file_add_step.
+      rewrite declare_file_add_step in FB.
+      destruct (declare_file false (CStep lB) rB st pB); [reflexivity|discriminate FB].
+Qed.
+
+Lemma str_eqb_sym a b : str_eqb a b = str_eqb b a.
+Proof.
+  destruct (str_eqb a b) eqn:E1, (str_eqb b a) eqn:E2; try reflexivity.
+  - apply str_eqb_eq in E1. subst. now rewrite str_eqb_refl in E2.
+  - apply str_eqb_eq in E2. subst. now rewrite str_eqb_refl in E1.
+Qed.
+
+Theorem define_define_commute st cA lA rA pA cB lB rB pB :
+  Inv gm gr st -> product_role rA = true -> product_role rB = true ->
+  accepted (step gm false gr st (define1 cA lA rA pA)) = true ->
+  accepted (step gm false gr st (define1 cB lB rB pB)) = true ->
+  both_equiv (run gm false gr st [define1 cA lA rA pA; define1 cB lB rB pB])
+             (run gm false gr st [define1 cB lB rB pB; define1 cA lA rA pA]).
+Proof.
+  intros HI HrA HrB HA HB. rewrite !(run2 gm gr).
+  rewrite (bind_ext _ _ (define1_sem cB lB rB pB) (fun st' => define1_spec cB lB rB pB st' HrB)).
+  rewrite (bind_ext _ _ (define1_sem cA lA rA pA) (fun st' => define1_spec cA lA rA pA st' HrA)).
+  rewrite (define1_spec cA lA rA pA st HrA) in *. rewrite (define1_spec cB lB rB pB st HrB) in *.
+  pose proof (define_accepted _ _ _ _ _ HA) as FA. pose proof (define_accepted _ _ _ _ _ HB) as FB.
+  pose proof (define_after _ _ _ _ _ _ _ _ _ FA FB) as AB.
+  pose proof (define_after _ _ _ _ _ _ _ _ _ FB FA) as BA.
+  destruct FA as [QA [_ [_ [_ [_ [_ [_ SA]]]]]]]. destruct FB as [QB [_ [_ [_ [_ [_ [_ SB]]]]]]].
+  rewrite SA, SB. cbn [bind]. rewrite AB, BA.
+  rewrite (andb_comm (creator_eqb cA CRoot)), (str_eqb_sym lA lB), (str_eqb_sym pA pB).
+  destruct (creator_eqb cB CRoot && creator_eqb cA CRoot); [reflexivity|].
+  destruct (str_eqb lB lA) eqn:El.
+  - apply str_eqb_eq in El. subst lB.
+    destruct (phrase_of_nontree _ (require_nontree _ _ QA)) as [a Ha].
+    destruct (phrase_of_nontree _ (require_nontree _ _ QB)) as [b Hb].
+    rewrite Ha, Hb. rewrite (sort2_str_sym b a). destruct (sort2_str a b). reflexivity.
+  - destruct (str_eqb pB pA) eqn:Ep.
+    + apply str_eqb_eq in Ep. subst pB. cbn [both_equiv].
+      apply (collision_message_symmetric pA rA (CStep lA) rB (CStep lB)); apply decl_of_node_step.
+    + cbn [both_equiv]. apply define_states_swap.
+      * intros E. subst. now rewrite str_eqb_refl in El.
+      * intros E. subst. now rewrite str_eqb_refl in Ep.
+Qed.
+
+End Commute7.
